@@ -127,6 +127,10 @@ def ground_axioms(enc, ob):
         add("sign of ln", f"(=> (> {N(x)} 0.0) (= (>= {N(i)} 0.0) (>= {N(x)} 1.0)))")
         if nodes[x][0] == "exp":
             add("ln(exp y) = y", f"(= {N(i)} {N(nodes[x][1])})")
+    for (t,), e in apps.get("exp", []):
+        for (u,), ln_ in apps.get("ln", []):
+            add("exp and ln are inverse: t = ln(u) => exp(t) = u ; u = exp(t) => ln(u) = t  (u > 0)",
+                f"(and (=> (and (> {N(u)} 0.0) (= {N(t)} {N(ln_)})) (= {N(e)} {N(u)})) (=> (= {N(u)} {N(e)}) (= {N(ln_)} {N(t)})))")
     for fn in ("exp", "ln"):
         l = apps.get(fn, [])
         for a in range(len(l)):
